@@ -127,7 +127,7 @@ def handleDbo (o : Op) : String :=
 /-- `wait path=get|post trig=cancel|deadline|none at=before|during dur=<ms> status=503|429|bn`:
     a retriable reply, then the context is cancelled (or its deadline passes) while the client waits for
     its retry timer of `dur` ms. By `cancel_during_wait` the loop ends at once with the error of the last
-    reply; only an undisturbed wait lasts `dur` (bucket `slow` from 1.5 s). -/
+    reply; only an undisturbed wait lasts `dur` (bucket `slow` from 2 s). -/
 def handleWait (o : Op) : String :=
   match o.get? "path", o.get? "trig", o.get? "at", o.nat? "dur", o.get? "status" with
   | some path, some trig, some at_, some dur, some status =>
@@ -150,8 +150,10 @@ def handleWait (o : Op) : String :=
       | some cs =>
         let (_, outs) := runCalls cfg st cs
         let last := (outs.zip calls).getLast?.map (fun (x, n) => showOutcome n x) |>.getD "-"
-        let slow := !armed && dur ≥ 1500
-        s!"res={last} within={if slow then "slow" else "fast"}"
+        let within := if !armed && dur ≥ 2000 then "slow" else "fast"
+        -- the generator's `expect` tag (what a harness that cannot measure reliably falls back to) must be the model's answer
+        if o.get? "expect" != some within then "bad-op" else
+        s!"res={last} within={within}"
   | _, _, _, _, _ => "bad-op"
 
 def handle (line : String) : String :=
